@@ -134,11 +134,14 @@ class Gen:
         self.prune_pool()
         return True
 
-    def reorg(self):
-        """a competing branch that forks 1..3 blocks below the tip and ends one block higher"""
+    def reorg(self, depth=None, plain=False):
+        """a competing branch that forks a few blocks below the tip and ends one block higher"""
         if len(self.chain) < 3:
             return False
-        d = self.rnd.randint(1, min(3, len(self.chain) - 2))
+        # mostly shallow; sometimes deeper than the depth at which transaction data is dropped from memory
+        d = self.rnd.randint(1, min(3 if self.rnd.random() < 0.7 else 6, len(self.chain) - 2))
+        if depth is not None:
+            d = min(depth, len(self.chain) - 2)
         fork = self.chain[-1 - d]
         old_outs = dict(self.outs)
         old_h, old_spent, old_chain = self.h, dict(self.spent), list(self.chain)
@@ -150,8 +153,10 @@ class Gen:
         self.chain = self.chain[:len(self.chain) - d]
         self.pool = {}   # keep the model simple: pooled transactions are not tracked across a reorg
         parent = fork
-        poison = self.rnd.random() < 0.3 and self.spent
-        forged = (not poison) and self.rnd.random() < 0.25
+        poison = self.rnd.random() < 0.3 and self.spent and not plain
+        # the poisoned block is the second or a later one of the branch, sometimes the very first
+        self.poison_from = 0 if self.rnd.random() < 0.35 else 1
+        forged = (not poison) and (not plain) and self.rnd.random() < 0.25
         for i in range(d + 1):
             self.nlabel += 1
             lab = "s%d" % self.nlabel
@@ -179,7 +184,7 @@ class Gen:
                 self.outs, self.h, self.spent = dict(old_outs), old_h, dict(old_spent)
                 self.chain = old_chain
                 return True
-            if poison and i >= 1:
+            if poison and i >= self.poison_from:
                 # the competing branch carries a block spending an output that was already spent below the
                 # fork point: the reorganisation must fail and leave everything as it was
                 n = self.rnd.choice(list(self.spent.keys()))
@@ -201,6 +206,10 @@ class Gen:
             return False
         h = self.h + 1
         n = self.rnd.choice(list(self.orphaned.keys()))
+        if self.rnd.random() < 0.5:
+            # an output of the deepest abandoned block (the one whose data had been dropped from memory)
+            low = min(v[1] for v in self.orphaned.values())
+            n = self.rnd.choice([k for k, v in self.orphaned.items() if v[1] == low])
         self.ntx += 1
         self.nlabel += 1
         t = dict(id="t%d" % self.ntx, signer=self.orphaned[n][0], ins=[n],
@@ -638,3 +647,21 @@ def fork_choice_scenarios(seed, n):
         s["tag"] = "fork-choice-long"
         out.append(s)
     return out
+
+
+def deep_reorg_restart_scenario(rnd):
+    """the chain is reorganised deeper than the depth at which transaction data is dropped from memory (the unwound
+    blocks have to be reloaded from disk), grows on, and the node is restarted: same tip, same outputs"""
+    g = rnd.choice([4, 6])
+    gen = Gen(rnd, g, 2)
+    for _ in range(rnd.randint(5, 7)):
+        gen.good_block()
+    gen.reorg(depth=rnd.randint(3, 5), plain=True)
+    for _ in range(rnd.randint(0, 2)):
+        gen.good_block()
+    gen.steps.append(dict(op="restart", tag="clean"))
+    for _ in range(2):
+        gen.good_block()
+    s = gen.scenario(0)
+    s["tag"] = "deep-reorg-restart"
+    return s
